@@ -258,16 +258,73 @@ class Interp:
                     sl.elts[0].upper is None and sl.elts[0].step is None:
                 second = sl.elts[1]
                 if isinstance(base, Elems):
-                    k = self.const(second)
+                    k = self.ev(second, env)      # a literal or a statically known loop index
                     if isinstance(k, int) and not isinstance(k, bool) and k >= 0:
                         return Col(k)
                 if isinstance(base, Sym) and base.ty == 'S' and \
                         isinstance(second, ast.Constant) and second.value is None:
                     return base        # x[:, None]: shape only
+            if isinstance(base, (list, tuple)):
+                # element / constant slice of a statically known sequence of values
+                if isinstance(sl, ast.Slice):
+                    lo, hi, st = (None if x is None else self.ev(x, env)
+                                  for x in (sl.lower, sl.upper, sl.step))
+                    if all(x is None or (isinstance(x, int) and not isinstance(x, bool))
+                           for x in (lo, hi, st)) and st != 0:
+                        return type(base)(base[slice(lo, hi, st)])
+                else:
+                    k = self.ev(sl, env)
+                    if isinstance(k, int) and not isinstance(k, bool) and -len(base) <= k < len(base):
+                        return base[k]
             self.err(node, 'unsupported subscript')
+        if isinstance(node, (ast.ListComp, ast.GeneratorExp)):
+            # [expr for x in <static sequence> (if <static test>)*]: unrolled
+            if len(node.generators) != 1 or node.generators[0].is_async:
+                self.err(node, 'unsupported comprehension')
+            g = node.generators[0]
+            it = self.ev(g.iter, env)
+            if not isinstance(it, (tuple, list)):
+                self.err(node, 'comprehension over a non-static sequence')
+            out = []
+            for item in it:
+                e2 = ChainEnv(env)
+                self.assign(g.target, item, e2, node, bind=False)
+                keep = True
+                for c in g.ifs:
+                    t = self.ev(c, e2)
+                    if not isinstance(t, int):
+                        self.err(node, 'comprehension filter on a non-static test')
+                    keep = keep and bool(t)
+                if keep:
+                    out.append(self.ev(node.elt, e2))
+            return out
+        if isinstance(node, ast.Compare) and len(node.ops) == 1:
+            # comparison of statically known integers (loop indices)
+            a, b = self.ev(node.left, env), self.ev(node.comparators[0], env)
+            if all(isinstance(x, (int, Fraction)) and not isinstance(x, bool) for x in (a, b)):
+                op = node.ops[0]
+                for ty, fn in ((ast.Eq, lambda: a == b), (ast.NotEq, lambda: a != b),
+                               (ast.Lt, lambda: a < b), (ast.LtE, lambda: a <= b),
+                               (ast.Gt, lambda: a > b), (ast.GtE, lambda: a >= b)):
+                    if isinstance(op, ty):
+                        return int(fn())
+            self.err(node, 'comparison of non-static values')
         if isinstance(node, ast.Call):
             return self.call(node, env)
         self.err(node, f'unsupported expression {type(node).__name__}')
+
+    def args_of(self, node, env):
+        """positional arguments, `*seq` of a statically known sequence expanded"""
+        args = []
+        for a in node.args:
+            if isinstance(a, ast.Starred):
+                v = self.ev(a.value, env)
+                if not isinstance(v, (list, tuple)):
+                    self.err(node, 'starred argument that is not a static sequence')
+                args.extend(v)
+            else:
+                args.append(self.ev(a, env))
+        return args
 
     def call(self, node, env):
         f = node.func
@@ -284,7 +341,7 @@ class Interp:
             if f.attr in self.methods:
                 if node.keywords:
                     self.err(node, 'keyword arguments in an inlined call')
-                args = [self.ev(a, env) for a in node.args]
+                args = self.args_of(node, env)
                 return self.inline(self.methods[f.attr], args, node)
             self.err(node, f'call of unknown method {f.attr}')
         # --- numpy
@@ -363,7 +420,7 @@ class Interp:
             if node.keywords:
                 self.err(node, 'keyword arguments in a closure call')
             c = env[f.id]
-            args = [self.ev(a, env) for a in node.args]
+            args = self.args_of(node, env)
             return self.run_function(c.fn, args, c.env, node, has_self=False)
         self.err(node, 'unsupported call')
 
@@ -398,14 +455,14 @@ class Interp:
             self.err(fn, 'function does not return')
         return res[0]
 
-    def assign(self, target, val, env, node):
+    def assign(self, target, val, env, node, bind=True):
         if isinstance(target, ast.Name):
-            env[target.id] = self.bind(target.id, val)
-        elif isinstance(target, ast.Tuple):
-            if not isinstance(val, tuple) or len(val) != len(target.elts):
+            env[target.id] = self.bind(target.id, val) if bind else val
+        elif isinstance(target, (ast.Tuple, ast.List)):
+            if not isinstance(val, (tuple, list)) or len(val) != len(target.elts):
                 self.err(node, 'tuple assignment shape')
             for t, v in zip(target.elts, val):
-                self.assign(t, v, env, node)
+                self.assign(t, v, env, node, bind=bind)
         else:
             self.err(node, 'unsupported assignment target')
 
@@ -437,7 +494,7 @@ class Interp:
                 if s.orelse:
                     self.err(s, 'for-else')
                 it = self.ev(s.iter, env)
-                if not isinstance(it, tuple):
+                if not isinstance(it, (tuple, list)):
                     self.err(s, 'loop over a non-static sequence')
                 for item in it:
                     self.assign(s.target, item, env, s)
